@@ -139,6 +139,13 @@ def p_sysexit(x, marker=None):
     return x * 10
 
 
+def p_badresult(x, marker=None):
+    """A persistent target whose answer to 99 cannot be recreated by whoever receives it."""
+    if x == 99:
+        return BadResult()
+    return x * 10
+
+
 # ---- C05: echo targets -----------------------------------------------------------------------------------------------
 def echo(*a, **k):
     if a and a[0] == 'POISON':
